@@ -82,6 +82,18 @@ def check_case(run, case, tier='quick'):
                     run.violation(f'honeywords --limit 9 wrote {len(r.guesses)} words', case); return
             elif big.exc is not None and not isinstance(big.exc, IndexError):
                 run.violation(f'random_walk raised {big.exc!r}', case, observed=big.stderr[-300:]); return
+        # ---- status / help / quit requests from the keyboard thread must never reach stdout either, whatever the session's age
+        from .. import sched
+        U0, s0 = sched.run_scheduled(['-r', name, '-s', sn] + fl)
+        for act in ('', 'h', 'q', ''):
+            age = rng.choice([None, 3600, 86400, 172800, 250000, 10 ** 8])
+            p = rng.randint(1, max(1, s0.m_idx))
+            session.drop_session(sn)
+            r, sc = sched.run_scheduled(['-r', name, '-s', sn] + fl, [sched.Step(p, act)], age=age)
+            run.ev('status_request_runs')
+            if r.stdout != '':
+                run.violation(f'a {act!r} request at yield point {p} (session age {age}s) made the tool write to stdout outside the guess stream', case,
+                              observed=r.stdout[:120]); return
         # ---- the process boundary: stdout bytes == the stream
         ref = ('\n'.join(Ug) + '\n').encode('utf-8')
         picks = [None] + rng.sample(Ns, min(len(Ns), SPAWNS[tier] - 1))
@@ -140,7 +152,7 @@ def check_error_paths(run, case):
         repo.drop_rules(name)
 
 def run(run, rng):
-    run.required_events = ['limit_runs', 'cli_runs', 'rulesets_with_every_N', 'random_walk_limit_runs', 'error_path_runs']
+    run.required_events = ['limit_runs', 'cli_runs', 'rulesets_with_every_N', 'random_walk_limit_runs', 'error_path_runs', 'status_request_runs']
     run.min_distinct = 20
     run.exhaustive = True
     run.extra['exhaustive_scope'] = 'every N in 1..total+2 for explored rulesets with total <= 300 guesses (thorough: <= 1500); larger ones use boundary-targeted N'
